@@ -38,8 +38,18 @@ def fam_task(task):
                 viol.append(d)
         elif sum(1 for v in viol if not v.get('finding')) < 8:
             viol.append(d)
+    history = []          # (label, scripts, cache, cfg, first result) for the history-independence replay
     for _ in range(rounds):
         for sc in fam(rng):
+            if sc[0] == 'MT':           # model command with the implementation's expected answer
+                n += 1
+                stats['tree-classes-vs-model'] += 1
+                got = model.cmd(sc[1])
+                if got != sc[2]:
+                    stats['tree-classes-differ'] += 1
+                    if len(dis) < 5:
+                        dis.append(dict(label='tree classes vs MerkleTree.v', cmd=sc[1][:400], impl=sc[2][:400], model=got[:400]))
+                continue
             label, scripts, cache, cfg, exp = sc[:5]
             finding = sc[5] if len(sc) > 5 else None
             explog = sc[6] if len(sc) > 6 else None
@@ -57,6 +67,8 @@ def fam_task(task):
             digests.add(hashlib.sha256(b''.join(scripts) + tsh.cache_str(cache, False).encode()).digest()[:8])
             v = iline.startswith('verdict:1')
             stats['verdict-true' if v else 'verdict-false'] += 1
+            if iline.startswith('verdict') and (len(history) < 60 or rng.random() < 0.05):
+                history.append((label, scripts, cache, cfg, iline, finding))
             if st == 'differ' and len(dis) < 5:
                 dis.append(dict(label=label, case=_case(scripts, cache, cfg), impl=iline[:600], model=mline[:600]))
             if exp is not None and v != exp:
@@ -72,6 +84,16 @@ def fam_task(task):
                                   case=_case(scripts, cache, cfg), finding=finding))
             if len(samples) < 2:
                 samples.append(dict(label=label, case=_case(scripts, cache, cfg), impl=iline[:200]))
+    # history independence: the verdict is a function of (scripts, cache, configuration) — the same inputs run again
+    # at the end of the task (after everything else this process has executed) must give the same result
+    for label, scripts, cache, cfg, first, finding in history:
+        again = tsh.impl_run_auth(scripts, cache, cfg)
+        stats['history-replays'] += 1
+        if again != first and again.startswith('verdict'):
+            stats['history-fail'] += 1
+            add_viol(dict(what='%s: the same scripts, cache and configuration gave a different result when run again later '
+                               'in the same process: first %s / later %s' % (label, first[:160], again[:160]),
+                          case=_case(scripts, cache, cfg), finding=finding))
     # bytes of the real builders vs model/Builders.v (the definitions the builder theorems are about)
     pid = {'c13': 'C13', 'c14': 'C14', 'c15': 'C15', 'c16': 'C16', 'c04': 'C04', 'c05': 'C05', 'c17': 'C17'}.get(name)
     if pid:
@@ -362,6 +384,14 @@ def _ctxs():
         'except': lambda b: op('TRY_EXCEPT') + u16(2) + b'\x00' + op('VERIFY') + u16(len(b)) + b,
         'loop': lambda b: b'\x01' + op('LOOP') + u16(len(b) + 1) + b + b'\x00',
         'def/call': lambda b: op('DEF') + b'\x07' + u16(len(b)) + b + op('CALL') + b'\x07',
+        # self-recursion: the calling tape IS the definition being called; the probe runs exactly once
+        'recursion:second-activation': lambda b: b'\x00' + op('DEF') + b'\x07' + u16(len(b) + 7) +
+            (op('IF') + u16(len(b) + 1) + b + op('RETURN') + b'\x01' + op('CALL') + b'\x07') + op('CALL') + b'\x07',
+        'recursion:after-inner-call': lambda b: b'\x00' + op('DEF') + b'\x07' + u16(len(b) + 7) +
+            (op('IF') + u16(1) + op('RETURN') + b'\x01' + op('CALL') + b'\x07' + b) + op('CALL') + b'\x07',
+        'recursion:from-loop': lambda b: b'\x00' + op('DEF') + b'\x07' + u16(len(b) + 11) +
+            (op('IF') + u16(len(b) + 1) + b + op('RETURN') + b'\x01' + op('LOOP') + u16(3) + op('CALL') + b'\x07' + b'\x00') +
+            op('CALL') + b'\x07',
         'eval': lambda b: push(b) + op('EVAL'),
         'merkleval': merk,
         'taproot-script': tap,
@@ -578,6 +608,13 @@ def c02_task(task):
                       op('SWAP2') + push(key) + op('CHECK_SIG_STACK'))
             exp = True
             what = 'message+sign_stack+check_sig_stack'
+            if rng.random() < 0.4:
+                # the same signature checked again over a different message (after it verified once) must fail
+                script = (op('GET_MESSAGE') + bytes([flag]) + op('DUP') + push(seed_) + op('SIGN_STACK') + op('DUP') +
+                          op('SWAP') + b'\x00\x02' + push(key) + op('CHECK_SIG_STACK') + op('VERIFY') +
+                          push(b'another message') + push(key) + op('CHECK_SIG_STACK'))
+                exp = False
+                what = 'check_sig_stack: verified signature re-presented over another message'
         else:
             script = op('GET_MESSAGE') + bytes([flag])
             exp = ('item', msg_spec(flag, cache))
